@@ -2,6 +2,7 @@ pub mod c01;
 pub mod c02;
 pub mod c04;
 pub mod c08;
+pub mod c20;
 
 use crate::report::Report;
 
